@@ -542,6 +542,22 @@ def native_pop_witness():
                             order, n0, fixed_before, n1, float(a_), float(b_), free), 'expected': float(b_), 'observed': float(a_)}
                 except Exception as ex:
                     return {'what': 'ReducedPopulationModel(Composed[%s]): fix %d-th parameter for %d individuals, set_n_ids(%d), evaluate raises %r' % (order, pick, n0, n1, ex), 'expected': 'values', 'observed': repr(ex)}
+    # set_n_ids(n) through the wrapper configures the wrapped model for n individuals whatever happened to that model in between (it is the
+    # caller's object: another wrapper or the caller may have re-configured it)
+    for order in ('HG', 'GP', 'PHG'):
+        try:
+            inner, twin = comp(order), comp(order)
+            r = real.ReducedPopulationModel(inner)
+            r.set_n_ids(2)
+            inner.set_n_ids(3)
+            r.set_n_ids(2)
+            twin.set_n_ids(2)
+            if list(r.get_parameter_names()) != list(twin.get_parameter_names()) or r.n_parameters() != twin.n_parameters() or \
+                    r.n_hierarchical_parameters(2) != twin.n_hierarchical_parameters(2) or inner.n_ids() != twin.n_ids():
+                return {'what': 'ReducedPopulationModel(Composed[%s]): set_n_ids(2), the wrapped model re-configured to 3 individuals by its owner, set_n_ids(2) again: parameters %s for %s individuals; a model configured for 2 individuals has %s' % (
+                    order, list(r.get_parameter_names()), inner.n_ids(), list(twin.get_parameter_names())), 'expected': list(twin.get_parameter_names()), 'observed': list(r.get_parameter_names())}
+        except Exception as ex:
+            return {'what': 'ReducedPopulationModel(Composed[%s]): set_n_ids(2), wrapped model re-configured, set_n_ids(2) again raises %r' % (order, ex), 'expected': 'values', 'observed': repr(ex)}
     for fixed in itertools.product((False, True), repeat=4):
         if not any(fixed):
             continue
